@@ -99,7 +99,35 @@ fn has_set_member_value_con(text: &str) -> bool {
 }
 
 /// classify a rustc failure into a finding signature (input class AND deviation shape)
-fn classify(text: &str, generated: &str, stderr: &str) -> Option<&'static str> {
+/// every rustc error of the output on its own: Some(findings) when each error matches a listed
+/// finding (used by C07, whose cases can hit several value-notation findings at once)
+pub(crate) fn classify_each(text: &str, generated: &str, stderr: &str) -> Option<Vec<&'static str>> {
+    let mut blocks: Vec<String> = vec![];
+    for l in stderr.lines() {
+        if l.starts_with("error: aborting") {
+            break;
+        }
+        if l.starts_with("error") {
+            blocks.push(String::new());
+        }
+        if let Some(b) = blocks.last_mut() {
+            b.push_str(l);
+            b.push('\n');
+        }
+    }
+    if blocks.is_empty() {
+        return None;
+    }
+    let mut out = vec![];
+    for b in &blocks {
+        out.push(classify(text, generated, b)?);
+    }
+    out.sort();
+    out.dedup();
+    Some(out)
+}
+
+pub(crate) fn classify(text: &str, generated: &str, stderr: &str) -> Option<&'static str> {
     let errs = error_lines(stderr);
     if !errs.is_empty()
         && has_set_member_value_con(text)
@@ -314,10 +342,35 @@ fn classify(text: &str, generated: &str, stderr: &str) -> Option<&'static str> {
         let ok = errs.iter().all(|l| {
             let name = l.split('`').rev().nth(1).unwrap_or("?");
             let name = if l.contains("E0599") { l.split("found for struct `").nth(1).and_then(|r| r.split('`').next()).unwrap_or("?") } else { name };
-            generated.contains(&format!("{name} ({name} :: new (")) || generated.contains(&format!("{name} :: new (")) && generated.contains(&format!("pub struct {name} (pub "))
+            generated.contains(&format!("{name} ({name} :: new ("))
+                || generated.contains(&format!("{name} :: new (")) && generated.contains(&format!("pub struct {name} (pub "))
+                // a struct with named fields called like a tuple struct around a nested value
+                || l.contains("E0423") && generated.contains(&format!("pub struct {name} {{")) && generated.contains(&format!(" {name} ("))
         });
         if ok {
             return Some("F-struct-value-ctor");
+        }
+    }
+    // F-brace-value-as-oid: a braces value governed by a SEQUENCE OF type, or by a SEQUENCE with a
+    // single member, that is a DEFAULT or governed through a type reference is read as an OBJECT
+    // IDENTIFIER value: its identifiers become undefined constants spliced with `&***X`, and the
+    // value has type ObjectIdentifier
+    if !errs.is_empty() && generated.contains("Oid :: ") {
+        let ok = errs.iter().all(|l| {
+            if l.starts_with("error[E0308]") {
+                stderr.contains("found `ObjectIdentifier`")
+            } else if l.starts_with("error[E0425]: cannot find value `") {
+                let n = l.split('`').nth(1).unwrap_or("?");
+                generated.contains(&format!("& * * * {n} ,")) || generated.contains(&format!("& * * * {n}]"))
+            } else if l.starts_with("error[E0423]: expected function, tuple struct or tuple variant, found struct `") {
+                let n = l.split('`').nth(1).unwrap_or("?");
+                generated.contains(&format!("{n} (Oid :: "))
+            } else {
+                false
+            }
+        });
+        if ok {
+            return Some("F-brace-value-as-oid");
         }
     }
     // F-struct-value-optional: a present OPTIONAL member of a SEQUENCE value is passed to
@@ -326,8 +379,16 @@ fn classify(text: &str, generated: &str, stderr: &str) -> Option<&'static str> {
         && text.contains("OPTIONAL")
         && generated.contains(":: new (")
         && errs.iter().all(|l| l.starts_with("error[E0308]: mismatched types") || l.starts_with("error[E0308]: arguments to this function are incorrect"))
-        && stderr.lines().filter(|l| l.contains("expected `")).all(|l| l.contains("expected `Option<"))
+        && stderr.lines().filter(|l| l.contains("expected `")).all(|l| l.contains("expected `Option<") || l.contains("found `LazyLock<"))
         && stderr.contains("expected `Option<")
+    {
+        return Some("F-struct-value-optional");
+    }
+    // (same finding, other shape: the member value is a `collect()` whose target becomes Option<_>)
+    if !errs.is_empty()
+        && text.contains("OPTIONAL")
+        && generated.contains(":: new (")
+        && errs.iter().all(|l| l.starts_with("error[E0277]: a value of type `Option<") && l.contains("cannot be built from an iterator"))
     {
         return Some("F-struct-value-optional");
     }
